@@ -594,7 +594,7 @@ package raft
 //@   loop range appliableOperations invariant [leader] r.state == Leader
 
 //@ func Raft.applyLoop
-//@   release s2 [order] operation.LogIndex == r.lastApplied + 1 && operation.LogIndex <= r.commitIndex && operation.LogTerm == Lterm[operation.LogIndex] && operation.Bytes == Ldata[operation.LogIndex] && Ltyp[operation.LogIndex] == OperationEntry && operation.OperationType == Replicated
+//@   release s3 [order] r.applying && !r.snapshotting && operation.LogIndex == r.lastApplied + 1 && operation.LogIndex <= r.commitIndex && operation.LogTerm == Lterm[operation.LogIndex] && operation.Bytes == Ldata[operation.LogIndex] && Ltyp[operation.LogIndex] == OperationEntry && operation.OperationType == Replicated
 //@   at before-assign r.lastApplied assert [advance] newval == r.lastApplied + 1 && newval <= r.commitIndex
 //@   at call respond(r.configurationResponseCh, assert [config-answer] arg2 == nil && arg1 == *r.configuration
 //@   at call respond(responseCh, assert [answer] response.Operation.LogIndex == operation.LogIndex && response.Operation.LogTerm == operation.LogTerm && response.Operation.Bytes == operation.Bytes && err == nil
@@ -793,7 +793,11 @@ package raft
 //@   flags inline lockheld
 //@   at call r.encodeConfiguration assert [committed-config] arg0 == r.committedConfiguration && r.committedConfiguration != nil && r.committedConfiguration.Index <= r.lastApplied
 //@   at call r.snapshotStorage.NewSnapshotFile assert [label] arg0 == r.lastApplied && arg1 == Lterm[r.lastApplied] && r.lastApplied > r.lastIncludedIndex && inLog(r.lastApplied) && r.committedConfiguration != nil && r.committedConfiguration.Index <= r.lastApplied
-//@   at call r.fsm.Snapshot assert [snapshot-exact] fsmIndex == sfIndex[snapshot]
+// F10 repaired: the state machine is asked for a snapshot only while no operation is being applied
+// and with the pause flag set (the apply loop applies nothing while it is set), under the label of
+// the applied index; the flag is cleared only after Snapshot has returned.
+//@   release s2 [snapshot-quiet] !r.applying && r.snapshotting && sfIndex[snapshot] == r.lastApplied && lastAppliedEntry.Index == r.lastApplied
+//@   at after-call r.fsm.Snapshot assert [still-paused] r.snapshotting
 //@   at call snapshot.Close assert [publish-locked] lockheld() && lastAppliedEntry.Index > r.lastIncludedIndex
 //@   at call snapshot.Close assume [A-OWN] sfWriter[snapshot] && !sfPublished[snapshot] && sfSeq[snapshot] > 0 && snapshot != r.snapshot
 //@   at call snapshot.Discard assume [A-OWN] snapshot != r.snapshot
